@@ -226,12 +226,14 @@ Qed.
 Lemma z_of_vlq_spec : forall n, z_of_vlq ((if (n <? 0)%Z then 1 else 0) + 2 * Z.abs_N n) = n.
 Proof.
   intros n. unfold z_of_vlq. destruct (n <? 0)%Z eqn:En.
-  - apply Z.ltb_lt in En. rewrite N.add_comm, N.odd_add_mul_2. cbn [N.odd].
-    replace (2 * Z.abs_N n + 1) with (N.succ_double (Z.abs_N n)) by (rewrite N.succ_double_spec; lia).
-    rewrite N.div2_succ_double. rewrite N2Z.inj_abs_N. lia.
-  - apply Z.ltb_ge in En. rewrite N.add_0_l, N.odd_mul, andb_false_l by idtac.
-    replace (2 * Z.abs_N n) with (N.double (Z.abs_N n)) by (rewrite N.double_spec; lia).
-    rewrite N.div2_double. rewrite N2Z.inj_abs_N. lia.
+  - apply Z.ltb_lt in En.
+    replace (1 + 2 * Z.abs_N n) with (N.succ_double (Z.abs_N n)) by (rewrite N.succ_double_spec; lia).
+    assert (H : N.odd (N.succ_double (Z.abs_N n)) = true) by (destruct (Z.abs_N n); reflexivity).
+    rewrite H, N.div2_succ_double, N2Z.inj_abs_N. lia.
+  - apply Z.ltb_ge in En.
+    replace (0 + 2 * Z.abs_N n) with (N.double (Z.abs_N n)) by (rewrite N.double_spec; lia).
+    assert (H : N.odd (N.double (Z.abs_N n)) = false) by (destruct (Z.abs_N n); reflexivity).
+    rewrite H, N.div2_double, N2Z.inj_abs_N. lia.
 Qed.
 
 (** ** vlq_roundtrip: for EVERY integer, decoding what [base64_vlq] emits (followed by anything)
@@ -256,10 +258,10 @@ Proof.
     assert (Hm : v mod 32 < 32) by (apply N.mod_lt; lia).
     destruct (N.eq_dec (v / 32) 0) as [E|E].
     + rewrite E in *. rewrite vlq_cont_0 in Hl'. injection Hl' as <-. rewrite N.ltb_irrefl.
-      exists [], (v mod 32). repeat split; [constructor | lia].
+      exists [], (v mod 32). split; [reflexivity|]. split; [constructor | lia].
     + destruct (IH _ _ Hl' E) as (init & last & -> & Hi & Hlast).
-      replace (0 <? v / 32) with true by (symmetry; apply N.ltb_lt; lia).
-      exists ((32 + v mod 32) :: init), last. repeat split; [constructor; [lia|exact Hi] | exact Hlast].
+      replace (0 <? v / 32) with true by (symmetry; apply N.ltb_lt, N.neq_0_lt_0; exact E).
+      exists ((32 + v mod 32) :: init), last. split; [reflexivity|]. split; [|exact Hlast]. constructor; [|exact Hi]. cbv beta. clear - Hm. set (r := v mod 32) in *. clearbody r. lia.
 Qed.
 
 Lemma vlq_sextets_wf : forall n l, vlq_sextets n = Some l -> wf_sextets l.
@@ -269,7 +271,7 @@ Proof.
   assert (Hsg : sg < 2) by (subst sg; destruct (n <? 0)%Z; lia).
   destruct (m <? 16) eqn:Em.
   - apply N.ltb_lt in Em. injection H as <-. rewrite first_sextet_short by assumption.
-    exists [], (sg + 2 * m). repeat split; [constructor | lia].
+    exists [], (sg + 2 * m). split; [reflexivity|]. split; [constructor | lia].
   - apply N.ltb_ge in Em.
     destruct (vlq_cont (N.size_nat m) (N.shiftr m 4)) as [l'|] eqn:Hl'; [|discriminate]. injection H as <-.
     rewrite land15, shiftr4 in *.
@@ -277,7 +279,7 @@ Proof.
     rewrite first_sextet_long by assumption.
     assert (Hq : m / 16 <> 0) by (apply N.neq_0_lt_0, N.div_str_pos; lia).
     destruct (vlq_cont_wf _ _ _ Hl' Hq) as (init & last & -> & Hi & Hlast).
-    exists ((32 + (sg + 2 * (m mod 16))) :: init), last. repeat split; [constructor; [lia|exact Hi] | exact Hlast].
+    exists ((32 + (sg + 2 * (m mod 16))) :: init), last. split; [reflexivity|]. split; [|exact Hlast]. constructor; [|exact Hi]. cbv beta. clear - Hm Hsg. set (r := m mod 16) in *. clearbody r sg. lia.
 Qed.
 
 (** ** vlq_model_is_rust: on the whole [isize] range (and for 2^63 = |isize::MIN|) the 64-bit
